@@ -275,6 +275,11 @@ fn node_edits(s: &Spec, include_sms_name: bool) -> Vec<(&'static str, Spec)> {
     Spec::Boxed(i) => {
       out.push(("unwrap Box (no observable change)", (**i).clone()));
     }
+    Spec::Custom { text } => {
+      for n in bump_text(text) {
+        out.push(("leaf text", Spec::Custom { text: n }));
+      }
+    }
   }
   out
 }
